@@ -200,6 +200,15 @@ func genFunction(prog *ssa.Program, cs *Contracts, fn *ssa.Function, fc *FuncCon
 	rst, vals := fr.run(st0)
 	if rst != nil {
 		envE := &Env{c: c, fr: fr, st: rst, old: fr.old, names: copyMap(env0), oldNames: env0}
+		// locals (e.g. closures) may be named in postconditions: resolved at the
+		// last return of the function
+		for bi := len(fn.Blocks) - 1; bi >= 0; bi-- {
+			if _, ok := fn.Blocks[bi].Instrs[len(fn.Blocks[bi].Instrs)-1].(*ssa.Return); ok {
+				envE.blk = fn.Blocks[bi]
+				envE.atLatch = true
+				break
+			}
+		}
 		rs := fn.Signature.Results()
 		for i := 0; i < rs.Len(); i++ {
 			envE.names[fmt.Sprintf("r%d", i)] = vals[i]
